@@ -111,6 +111,19 @@ def write (s : State) (k : Bytes) (del : Bool) (v : Bytes) : State :=
 def applyWal (own : Bytes → Bool) (s : State) (w : WalEntry) : State :=
   if own w.key then write s w.key w.del w.val else s
 
+/-- `Checkpoint.NextTableID` (repair D28): one above the largest table file number the composite checkpoint references,
+whatever directory the table lies in; `DB.Start` makes the table writer skip to it -/
+def nextTableId (levels : List (List Tbl)) : Nat := levels.flatten.foldl (fun m t => max m (t.id + 1)) 0
+
+/-- the instance `DB.Start` has built before it replays the WALs -/
+def startState (endSeq : Tbl → Nat) (lv : List (List Tbl)) : State :=
+  { seq := latestSeqWith endSeq lv, mems := [[]], levels := lv, nextId := nextTableId lv }
+
+/-- `Checkpoint.Document` of the composite checkpoint an instance loaded from `handles`: the merged level list and one WAL
+handle per source (repair D36). `CheckpointList.Save` writes it, under the id of the job checkpoint the instance was
+restored from, into the ONE `checkpoints` document of the instance's directory, next to the instance's own checkpoints. -/
+def compositeDoc (handles : List Ckpt) : Ckpt := ⟨mergeLevels handles, handles.flatMap (·.wal)⟩
+
 /-- `dkv.Open(options{DataOwnership: own}, handles)`: composite checkpoint, `seqNum = LatestSeqNum`, filtered replay
 of the concatenated WALs -/
 def openWith (merge : List Ckpt → List (List Tbl)) (endSeq : Tbl → Nat) (own : Bytes → Bool) (cs : List Ckpt) : State :=
@@ -118,7 +131,7 @@ def openWith (merge : List Ckpt → List (List Tbl)) (endSeq : Tbl → Nat) (own
   | [] => {}
   | _ =>
     let lv := merge cs
-    (cs.flatMap (·.wal)).foldl (applyWal own) { seq := latestSeqWith endSeq lv, mems := [[]], levels := lv }
+    (cs.flatMap (·.wal)).foldl (applyWal own) (startState endSeq lv)
 
 def openDB (own : Bytes → Bool) (cs : List Ckpt) : State := openWith mergeLevels tblEndSeq own cs
 
